@@ -7,3 +7,4 @@ Lemma tie_pack_weights : src_pack_weights = pack_weights. Proof. reflexivity. Qe
 Lemma tie_unpack_py : src_unpack_py = unpack_py. Proof. reflexivity. Qed.
 Lemma tie_unpack_cpp : src_unpack_cpp = unpack_cpp. Proof. reflexivity. Qed.
 Lemma tie_packed_unpack : src_packed_unpack = packed_unpack. Proof. reflexivity. Qed.
+Lemma tie_packed_prints : src_packed_prints = packed_prints. Proof. reflexivity. Qed.
